@@ -12,7 +12,7 @@ class FortranRegularExpressions:
         I,
     )
     IMPORT: Pattern = compile(
-        r"[ ]*IMPORT"
+        r"[ ]*IMPORT(?!\w)"  # (not a name that merely starts with import)
         r"(?:"
         r"[ ]*,[ ]*(?P<spec>ALL|NONE)"  # import, [all | none]
         r"|"  # or
@@ -143,9 +143,12 @@ class FortranRegularExpressions:
     SCOPE_DEF: Pattern = compile(
         r"[ ]*(MODULE|PROGRAM|SUBROUTINE|FUNCTION|INTERFACE)[ ]+", I
     )
+    # An END statement (possibly still being typed): END, the kind of construct
+    # and a name, nothing else. `endpoint = 1` is not one.
     END: Pattern = compile(
-        r"[ ]*(END)("
-        r" |MODULE|PROGRAM|SUBROUTINE|FUNCTION|PROCEDURE|TYPE|DO|IF|SELECT)?",
+        r"[ ]*(END)[ ]*(DO|WHERE|IF|BLOCK|CRITICAL|ASSOCIATE|SELECT|TYPE|ENUM|MODULE"
+        r"|SUBMODULE|PROGRAM|INTERFACE|SUBROUTINE|FUNCTION|PROCEDURE|FORALL)?"
+        r"(?:[ ]+\w*)?[ ]*$",
         I,
     )
     # Object regex patterns
